@@ -441,6 +441,18 @@ func altPaths(o *FwOp, reg lint.Registry, cfg lint.Configuration, obj interface{
 						continue
 					}
 					note("Registry.ByName(redated).Execute", s.Name, safe(func() *lint.LintResult { return l2.Execute(c, cfg) }), rs2.Results[s.Name])
+					// … also when the value has been *used before* its dates were changed, and for a copy taken of a used value:
+					// whatever a *Lint remembers from an earlier call must not outlive a change of its window
+					l.EffectiveDate, l.IneffectiveDate = w[0], w[1]
+					note("Registry.ByName(used, then redated).Execute", s.Name, safe(func() *lint.LintResult { return l.Execute(c, cfg) }), rs2.Results[s.Name])
+					if eff := l.CheckEffective(c); eff != lint.VerifCheckEffective(w[0], w[1], c.NotBefore) {
+						bad = append(bad, "Registry.ByName(used, then redated).CheckEffective:"+s.Name)
+					}
+					lc := *l2
+					lc.EffectiveDate, lc.IneffectiveDate = w[1], w[0]
+					lc.EffectiveDate, lc.IneffectiveDate = w[0], w[1]
+					lcp := &lc
+					note("copy of a used *Lint.Execute", s.Name, safe(func() *lint.LintResult { return lcp.Execute(c, cfg) }), rs2.Results[s.Name])
 				}
 			}
 			for _, l := range reg.BySource(lint.LintSource(s.Source)) {
